@@ -24,6 +24,8 @@ def main() -> int:
         chk = common.Check(pid, a.tier, a.seed)
         if a.replay:
             return mod.replay(chk, a.replay)
+        if hasattr(mod, "pre_gate"):
+            mod.pre_gate(chk)          # e.g. regenerate a model file from /repo's source (C11)
         if not a.no_gate:
             chk.lean_gate()
         else:
